@@ -1063,3 +1063,175 @@ func ruleZeroConversions(c *Ctx) {
 		c.undecided("zeroconv.count", nil, fmt.Sprintf("only %d saturating exits found", n), "C10")
 	}
 }
+
+// QuoRem: the early exit "quotient 0, remainder x" is taken only when |y| is strictly greater than |x|.
+// Where the decision compares the two aligned coefficients, the comparison must exclude equality
+// (for |x| = |y| the result is quotient ±1, remainder 0).
+func ruleQuoRemEarly(c *Ctx) {
+	p := c.P
+	fd := c.fn("Decimal.QuoRemWithMode")
+	if fd == nil {
+		return
+	}
+	recv := recvObj(p, fd)
+	ps := paramObjs(p, fd)
+	if recv == nil || len(ps) < 1 {
+		c.undecided("quorem.early.shape", fd, "QuoRemWithMode(o, mode) expected", "C03")
+		return
+	}
+	// coefficient variables of the two operands
+	coef := map[string]int{}
+	ast.Inspect(fd.Body, func(n ast.Node) bool {
+		if as, ok := n.(*ast.AssignStmt); ok && len(as.Lhs) == 2 && len(as.Rhs) == 1 {
+			if call, ok := as.Rhs[0].(*ast.CallExpr); ok && p.isPkgFunc(call, "Decimal.decompose") {
+				if sel, ok := call.Fun.(*ast.SelectorExpr); ok {
+					switch p.objOf(sel.X) {
+					case recv:
+						coef[p.exprKey(as.Lhs[0])] = 0
+					case ps[0]:
+						coef[p.exprKey(as.Lhs[0])] = 1
+					}
+				}
+			}
+		}
+		return true
+	})
+	n := 0
+	walkStack(fd.Body, func(nd ast.Node, stack []ast.Node) {
+		ifs, ok := nd.(*ast.IfStmt)
+		if !ok || len(ifs.Body.List) != 1 {
+			return
+		}
+		r, ok := ifs.Body.List[0].(*ast.ReturnStmt)
+		if !ok || len(r.Results) != 2 || p.objOf(r.Results[1]) != recv {
+			return
+		}
+		if call, ok := r.Results[0].(*ast.CallExpr); !ok || !p.isPkgFunc(call, "zero") {
+			return
+		}
+		for _, dj := range disjuncts(ifs.Cond) {
+			x, op, k, ok := p.normCmp(dj)
+			if !ok {
+				continue
+			}
+			call, isCall := ast.Unparen(x).(*ast.CallExpr)
+			if !isCall || !strings.HasSuffix(p.calleeName(call), ".cmp") || len(call.Args) != 1 {
+				continue
+			}
+			sel, ok := call.Fun.(*ast.SelectorExpr)
+			if !ok {
+				continue
+			}
+			a, okA := coef[p.exprKey(sel.X)]
+			b, okB := coef[p.exprKey(call.Args[0])]
+			if !okA || !okB || a == b {
+				continue
+			}
+			n++
+			// the values of cmp in {-1,0,1} that satisfy the disjunct
+			var sat []int64
+			for _, v := range []int64{-1, 0, 1} {
+				bv := big.NewInt(v)
+				holds := false
+				switch op {
+				case token.GTR:
+					holds = bv.Cmp(k) > 0
+				case token.LEQ:
+					holds = bv.Cmp(k) <= 0
+				case token.EQL:
+					holds = bv.Cmp(k) == 0
+				case token.NEQ:
+					holds = bv.Cmp(k) != 0
+				}
+				if holds {
+					sat = append(sat, v)
+				}
+			}
+			// y.cmp(x): only +1 ; x.cmp(y): only -1
+			want := int64(1)
+			if a == 0 {
+				want = -1
+			}
+			c.check(len(sat) == 1 && sat[0] == want, fmt.Sprintf("quorem.early#%d", n), dj, "the zero-quotient exit compares the coefficients strictly (|y| > |x|)",
+				fmt.Sprintf("QuoRemWithMode: the exit that returns quotient 0 and remainder x is taken when `%s`; it must require |y| strictly greater than |x| - for equal magnitudes the quotient is ±1 and the remainder 0", p.exprStr(dj)), "C03")
+		}
+	})
+	if n < 1 {
+		c.undecided("quorem.early", fd, "no coefficient comparison guarding the zero-quotient exit found", "C03")
+	}
+}
+
+// A general division `q, r = x.div(y)` yields quotient digits: they are part of the result or, when
+// there is no room for them, must at least reach the sticky flag. The quotient may not be discarded.
+func ruleQuotientUsed(c *Ctx) {
+	p := c.P
+	n := 0
+	for _, name := range p.sortedFuncNames() {
+		fd := p.Funcs[name]
+		if fd.Body == nil {
+			continue
+		}
+		if fd.Recv != nil && strings.HasPrefix(recvTypeName(fd.Recv.List[0].Type), "uint") {
+			continue
+		}
+		k := 0
+		walkStack(fd.Body, func(nd ast.Node, stack []ast.Node) {
+			as, ok := nd.(*ast.AssignStmt)
+			if !ok || len(as.Lhs) != 2 || len(as.Rhs) != 1 {
+				return
+			}
+			call, ok := as.Rhs[0].(*ast.CallExpr)
+			if !ok {
+				return
+			}
+			cn := p.calleeName(call)
+			if !strings.HasPrefix(cn, "uint") || !strings.HasSuffix(cn, ".div") {
+				return
+			}
+			k++
+			n++
+			key := fmt.Sprintf("quotient:%s#%d", name, k)
+			fp := funcProps(name)
+			if isBlank(as.Lhs[0]) {
+				c.bad(key, as, fmt.Sprintf("%s: the quotient of `%s` is discarded; its digits belong to the result, or to the sticky flag when they no longer fit", name, p.exprStr(call)), fp...)
+				return
+			}
+			qkey := p.exprKey(as.Lhs[0])
+			list, idx := enclosingBlock(append(append([]ast.Node{}, stack...), nd))
+			used := false
+			if list != nil && qkey != "" {
+				for _, s := range list[idx+1:] {
+					if p.readsVar(s, qkey) {
+						used = true
+						break
+					}
+					if p.assignsTo(s, qkey) {
+						break
+					}
+				}
+				// the enclosing function may use it after the block (sig, rem = a.div(b) at top level of a branch)
+				if !used {
+					for i := len(stack) - 1; i >= 0 && !used; i-- {
+						if blk, ok := stack[i].(*ast.BlockStmt); ok {
+							after := false
+							for _, s := range blk.List {
+								if after && p.readsVar(s, qkey) {
+									used = true
+									break
+								}
+								if containsNode(s, as) {
+									after = true
+								}
+							}
+						}
+					}
+				}
+			}
+			c.check(used, key, as, "the quotient is used (added to the result or tested for the sticky flag)",
+				fmt.Sprintf("%s: the quotient of `%s` is never read afterwards: its digits are lost without reaching the result or the sticky flag", name, p.exprStr(call)), fp...)
+		})
+	}
+	if n < 7 {
+		c.undecided("quotient.count", nil, fmt.Sprintf("only %d general divisions found", n))
+	}
+}
